@@ -295,3 +295,26 @@ Proof.
   destruct (pending_ties i m (rev ops) st p q (feed_consistent_rev _ C) L0 L1 Hp Hq Heq) as [A B].
   split; [assumption | split; [assumption|]]. intros _. apply (l1_K _ _ _ L1).
 Qed.
+
+(* partial abandonment: CleanSkippedSequenceQueue removes exactly the elements that are old enough, nothing else
+   changes, and an abandoned sequence that turns up afterwards is ignored (it is below nextSequence and no longer
+   skipped): abandoning is giving up for good *)
+Lemma thm_partial_abandon : forall i m ops bits, let st := run (init i m) ops in
+  let st' := step st (AbandonSome bits) in
+  let gone := snd (sk_split bits (skipped st)) in
+  skipped st' = fst (sk_split bits (skipped st)) /\ abandoned st' = gone ++ abandoned st
+  /\ (forall s, sk_mem s (skipped st) = sk_mem s (skipped st') || sk_mem s gone)
+  /\ (forall s, sk_mem s gone = true -> sk_mem s (skipped st') = false)
+  /\ next st' = next st /\ pending st' = pending st /\ received st' = received st /\ delivered st' = delivered st
+  /\ (forall k s a, sk_mem s (abandoned st') = true -> step st' (Arrive k s a) = st').
+Proof.
+  intros i m ops bits st st' gone. destruct (run_I0 i m ops) as [L Q]. fold st in L, Q.
+  repeat split; try reflexivity.
+  - intros s. apply sk_mem_split.
+  - intros s Hs. apply (sk_split_disjoint s bits _ _ (li_skwf _ _ _ _ L) Hs).
+  - intros k s a Hs.
+    assert (I' : I0 i m (AbandonSome bits :: rev ops) st') by (apply step_I0; split; assumption).
+    destruct I' as [L' _]. cbn [step]. unfold process_entry. cbn [e_seq].
+    pose proof (sk_below_mem _ _ _ (li_abbelow _ _ _ _ L') Hs) as Hlt. rewrite (li_absk _ _ _ _ L' s Hs).
+    assert (E : (s <? next st') = true) by lia. rewrite E. reflexivity.
+Qed.
